@@ -105,6 +105,15 @@ def run():
                         break
     except Exception:
         pass
+    # distinct documents that went through save + load: digests of the source projection, from the short `sum` lines
+    seen = set()
+    for sh in shards:
+        with open(sh) as f:
+            for ln in f:
+                if len(ln) < 300 and '"ev":"sum"' in ln:
+                    e = json.loads(ln)
+                    if e.get("ok") == 1:
+                        seen.add(e["h"])
     docs = sum(int(r.get("r4", 0)) for r in c.reports)
     ok_docs = sum(int(r.get("r5", 0)) for r in c.reports)
     c.evaluations = docs
@@ -113,7 +122,7 @@ def run():
     c.extra["layers_compared"] = sum(int(r.get("r6", 0)) for r in c.reports)
     c.extra["cells_compared"] = sum(int(r.get("r7", 0)) for r in c.reports)
     c.extra["tlc_case_table"] = g["n"]
-    c.extra["distinct_nontrivial"] = ok_docs
+    c.extra["distinct_nontrivial"] = len(seen)
     c.extra["driver_wall_s"] = round(wall, 1)
     c.rule = ("R1: TLC checks on IcyDraw.tla that DecodeLayer o EncodeLayer = id for every layer <= 3x2 over the cell alphabet {invisible, short, long ch, long colour, "
               "transparent colour, font page > 255} under chunk limits 60/100/3e6 (continuation chunks), row framing (full-width row has no terminator), decoder totality on all "
@@ -122,7 +131,8 @@ def run():
               "documents (1..6 layers, sizes up to 40x20 quick / 200x120 thorough, offsets -50..50, Unicode titles, palettes 1..300, font slots 0..300, SAUCE on/off) are saved by the real "
               "engine through Buffer::to_bytes('icy', lossles_output=true) and re-loaded with Buffer::from_bytes; R3: Trace_IcyDraw evaluates SaveLoadOk and DocEq(reloaded, source) "
               "field by field on the recorded projections (property layer) and compares SpecDecode(chunk payloads) with both documents (model layer, drift only). "
-              "distinct_nontrivial = documents that went through save+load and were compared (register r5); every document is generated from a different seed stream / case-table row.")
+              "distinct_nontrivial = number of DISTINCT source documents (64-bit digest of the whole projection) that went through save + load and were compared; "
+              "documents_round_tripped (register r5) counts them with multiplicity.")
     c.assumptions = ["PNG framing, zlib and base64 are unwrapped by the harness with the png/base64 crates and not modelled",
                      "SAUCE texts are CP437-representable and carry no trailing blanks; SAUCE date, font name and size fields are derived by the writer and not compared",
                      "invisible cells are generated as AttributedChar::invisible() (no other attribute bits) and compared as invisible only",
